@@ -138,8 +138,13 @@ static bool rtosc_match_args(const char *pattern, const char *msg)
     const char *arg_str = rtosc_argument_string(msg);
     bool      arg_match = *pattern || *pattern == *arg_str;
 
-    while(*pattern && *pattern != ':')
-        arg_match &= (*pattern++==*arg_str++);
+    while(*pattern && *pattern != ':') {
+        //do not step over the end of the message's type string
+        arg_match &= (*pattern==*arg_str);
+        ++pattern;
+        if(*arg_str)
+            ++arg_str;
+    }
 
     if(*pattern==':') {
         if(arg_match && !*arg_str)
